@@ -555,6 +555,16 @@ func ruleFlagsCmd(args []string) int {
 			}
 			if bare {
 				text = strings.Join(argv, " ")
+			} else if rng.Intn(3) == 0 {
+				// the same words in double quotes, where a backslash quotes only $ ` " \ and newline and is an
+				// ordinary character in front of anything else; one value gets such a backslash
+				if i := rng.Intn(len(argv) + 1); i < len(argv) && len(argv[i]) > 1 && argv[i][0] != '-' && rng.Intn(2) == 0 {
+					at := 1 + rng.Intn(len(argv[i])-1)
+					if c := argv[i][at]; c != '$' && c != '`' && c != '"' && c != '\\' && c != '\n' && argv[i][at-1] != '\\' {
+						argv[i] = argv[i][:at] + "\\" + argv[i][at:]
+					}
+				}
+				text = dquote(argv)
 			}
 			trace++
 			rec := map[string]interface{}{"k": "flags", "trace": trace, "cls": cls, "line": text, "ret": "err",
@@ -585,6 +595,30 @@ func ruleFlagsCmd(args []string) int {
 	w.close()
 	printJSON(map[string]interface{}{"stats": stats})
 	return 0
+}
+
+// dquote writes every word in double quotes as a POSIX shell reads them.
+func dquote(args []string) string {
+	var out []string
+	for _, a := range args {
+		var sb strings.Builder
+		sb.WriteByte('"')
+		for i := 0; i < len(a); i++ {
+			c := a[i]
+			switch c {
+			case '"', '$', '`':
+				sb.WriteByte('\\')
+			case '\\':
+				if i+1 == len(a) || strings.IndexByte("$`\"\\\n", a[i+1]) >= 0 {
+					sb.WriteByte('\\')
+				}
+			}
+			sb.WriteByte(c)
+		}
+		sb.WriteByte('"')
+		out = append(out, sb.String())
+	}
+	return strings.Join(out, " ")
 }
 
 func init() {
